@@ -720,3 +720,4 @@ def replay(case):
             f'handler with {got[1]!r}; it was registered under a rule whose wildcard is named {name!r}')
 
 MANIFEST['text'] += " Wildcard names of every identifier shape, numeric edge texts ('5.', '.5') and rules whose literal begins with a dot are part of the universe; registered-then-removed rule sets and route hooks on a route's own pattern are layers of their own."
+MANIFEST['text'] += ' One router also answers all sequences of 3 lookups from a menu that includes values no int conversion can take (a lookup that raises must not colour the next one).'
